@@ -1,16 +1,20 @@
 //! C05 — vary.  Histories through the real `kvarn::handle_cache` (shared pipeline harness, c00pipe.rs)
 //! plus two observations/controls that only this property needs:
 //!
-//! op (L (N 4) target)                         dump of the variant vectors stored for `target`
-//!                                             (`host.response_cache.cache` is a public field, `VariedResponse`
-//!                                             is public and `Debug`): for the PathQuery key and the Path key
-//!                                             `(L)` = no entry | `(L (L hcoll ...))`, hcoll = `(L (L name transformed) ...)`
+//! op (L (N 4) target (N rules))               dump of the variant vectors stored for `target`, a page with `rules`
+//!                                             vary rules (`host.response_cache.cache` is a public field,
+//!                                             `VariedResponse` is public and `Debug`): for the PathQuery key and
+//!                                             the Path key `(L)` = no entry | `(L (L hcoll ...))`,
+//!                                             hcoll = `(L (L name transformed) ...)`;
+//!                                             `(L (N 94))` = the Debug text has no readable shape (not an outcome
+//!                                             of the code: the driver then skips the dump and says so)
 //! op (L (N 5) addr method target headers body) like op 0, but the request is suspended inside its handler
 //!                                             (the `.await` on the layer below in handle_cache /
 //!                                             handle_vary_missing) if it gets there: `(L)`; otherwise its reply
 //! op (L (N 6))                                resume the suspended request and complete it: its reply, `(L)` if none
 //!
-//! Every page is served by the fixture handlers of c00pipe.rs (kind 3 echoes the transformed tuple).
+//! Every page is served by the fixture handlers of c00pipe.rs (kind 3 echoes the transformed tuple); kind 5, known
+//! here only, echoes "?<query>" and then the transformed tuple (Model/Vary.v `compute_c05`).
 use crate::c00pipe as pipe;
 use crate::xval::X;
 use kvarn::prelude::*;
@@ -18,12 +22,6 @@ use std::future::Future;
 use std::pin::Pin;
 use std::sync::atomic::{AtomicBool, Ordering};
 use std::sync::Arc;
-
-struct Gate {
-    armed: AtomicBool,
-    reached: tokio::sync::Notify,
-    release: tokio::sync::Notify,
-}
 
 /// Reads a Rust `Debug`-formatted string literal starting just after its opening quote.
 fn debug_str(s: &[u8], mut i: usize) -> Option<(Vec<u8>, usize)> {
@@ -63,32 +61,63 @@ fn debug_str(s: &[u8], mut i: usize) -> Option<(Vec<u8>, usize)> {
     None
 }
 
-/// All `Header { name: "..", transformed: ".." }` of a `{:?}`-formatted `VariedResponse`, in order,
-/// and the number of stored responses.
-fn parse_varied_debug(s: &str) -> Option<(Vec<(Vec<u8>, Vec<u8>)>, usize)> {
+/// Skips ASCII white space.
+fn skip_ws(b: &[u8], mut i: usize) -> usize {
+    while i < b.len() && (b[i] == b' ' || b[i] == b'\n' || b[i] == b'\t' || b[i] == b'\r') {
+        i += 1;
+    }
+    i
+}
+
+/// `<field>: "<literal>"` at `i` (any white space around the colon): the literal and the index after it.
+fn field_literal(b: &[u8], i: usize, field: &[u8]) -> Option<(Vec<u8>, usize)> {
+    if !b[i..].starts_with(field) || (i > 0 && (b[i - 1].is_ascii_alphanumeric() || b[i - 1] == b'_')) {
+        return None;
+    }
+    let j = skip_ws(b, i + field.len());
+    if b.get(j) != Some(&b':') {
+        return None;
+    }
+    let k = skip_ws(b, j + 1);
+    if b.get(k) != Some(&b'"') {
+        return None;
+    }
+    debug_str(b, k + 1)
+}
+
+/// The `(name, transformed)` pairs of a `Debug`-formatted `VariedResponse`, in order.  Only the two field
+/// names and the form of string literals are relied on — not the struct names, not the layout (`{:?}` or
+/// `{:#?}`), not how the responses are printed: a pair is a field `name: ".."` directly followed (after a
+/// comma) by a field `transformed: ".."`.  `None` = the text has no such shape any more.
+fn parse_varied_debug(s: &str) -> Option<Vec<(Vec<u8>, Vec<u8>)>> {
     let b = s.as_bytes();
-    let pat = b"Header { name: \"";
     let mut out = Vec::new();
     let mut i = 0;
-    while i + pat.len() <= b.len() {
-        if &b[i..i + pat.len()] == pat && !(i >= 9 && &b[i - 9..i] == b"Reference") {
-            let (name, j) = debug_str(b, i + pat.len())?;
-            let pat2 = b", transformed: \"";
-            if b.len() < j + pat2.len() || &b[j..j + pat2.len()] != pat2 {
+    while i < b.len() {
+        if let Some((name, j)) = field_literal(b, i, b"name") {
+            let k = skip_ws(b, j);
+            if b.get(k) == Some(&b',') {
+                let k = skip_ws(b, k + 1);
+                if let Some((val, l)) = field_literal(b, k, b"transformed") {
+                    out.push((name, val));
+                    i = l;
+                    continue;
+                }
+            }
+            i = j;
+        } else {
+            if b[i..].starts_with(b"transformed") && field_literal(b, i, b"transformed").is_some() {
+                // a `transformed` field that does not follow a `name` field: unknown shape
                 return None;
             }
-            let (val, k) = debug_str(b, j + pat2.len())?;
-            out.push((name, val));
-            i = k;
-        } else {
             i += 1;
         }
     }
-    let n = s.matches("CompressedResponse {").count();
-    Some((out, n))
+    Some(out)
 }
 
-fn dump(host: &Host, target: &[u8]) -> X {
+/// `per`: how many rules the page has = how many headers one variant has (given by the scenario).
+fn dump(host: &Host, target: &[u8], per: usize) -> X {
     let uri = match Uri::try_from(target) {
         Ok(u) => u,
         Err(_) => return X::L(vec![X::N(96)]),
@@ -105,19 +134,26 @@ fn dump(host: &Host, target: &[u8]) -> X {
             None => out.push(X::L(vec![])),
             Some((vr, _)) => {
                 let text = format!("{:?}", vr);
-                let (headers, n) = match parse_varied_debug(&text) {
+                let headers = match parse_varied_debug(&text) {
                     Some(p) => p,
-                    None => return X::L(vec![X::N(95)]),
+                    None => return X::L(vec![X::N(94)]),
                 };
-                if n == 0 || headers.len() % n != 0 {
-                    return X::L(vec![X::N(95)]);
+                if per == 0 {
+                    // no rule: every request has the empty list, the vector holds one variant
+                    if !headers.is_empty() {
+                        return X::L(vec![X::N(94)]);
+                    }
+                    // (how many: as long as the derived Debug of the stored responses is there, count them)
+                    let n = text.matches("CompressedResponse {").count().max(1);
+                    out.push(X::L(vec![X::L(vec![X::L(vec![]); n])]));
+                    continue;
                 }
-                let per = headers.len() / n;
+                if headers.is_empty() || headers.len() % per != 0 {
+                    return X::L(vec![X::N(94)]);
+                }
                 let mut variants = Vec::new();
-                for v in 0..n {
-                    variants.push(X::L(
-                        headers[v * per..(v + 1) * per].iter().map(|(a, b)| X::L(vec![X::b(a), X::b(b)])).collect(),
-                    ));
+                for v in headers.chunks(per) {
+                    variants.push(X::L(v.iter().map(|(a, b)| X::L(vec![X::b(a), X::b(b)])).collect()));
                 }
                 out.push(X::L(vec![X::L(variants)]));
             }
@@ -148,7 +184,7 @@ async fn run(b: &pipe::Built, gate: &Arc<Gate>, ops: &[X]) -> Option<Vec<X>> {
         let l = op.as_l()?;
         match l[0].as_n()? {
             0..=3 => out.extend(pipe::run_ops(b, std::slice::from_ref(op)).await?),
-            4 => out.push(dump(host, l[1].as_b()?)),
+            4 => out.push(dump(host, l[1].as_b()?, l.get(2).and_then(X::as_n)? as usize)),
             5 => {
                 if parked.is_some() {
                     out.push(X::L(vec![X::N(96)]));
@@ -199,16 +235,22 @@ async fn run(b: &pipe::Built, gate: &Arc<Gate>, ops: &[X]) -> Option<Vec<X>> {
     Some(out)
 }
 
-fn run_scenario(x: &X) -> X {
-    let l = match x.as_l() {
-        Some(l) if l.len() == 2 => l,
-        _ => return X::bad(),
-    };
-    let gate = Arc::new(Gate { armed: AtomicBool::new(false), reached: tokio::sync::Notify::new(), release: tokio::sync::Notify::new() });
-    let g2 = Arc::clone(&gate);
-    // every fixture handler is wrapped: when the gate is armed, the first invocation parks before it
-    // produces its response (the counter and the log entry are written after the release)
-    let customize = move |kv: &[(String, X)], host: &mut Host, shared: &Arc<pipe::Shared>| {
+pub struct Gate {
+    armed: AtomicBool,
+    reached: tokio::sync::Notify,
+    release: tokio::sync::Notify,
+}
+impl Gate {
+    pub fn new() -> Arc<Gate> {
+        Arc::new(Gate { armed: AtomicBool::new(false), reached: tokio::sync::Notify::new(), release: tokio::sync::Notify::new() })
+    }
+}
+
+/// Every fixture handler is wrapped: when the gate is armed, the first invocation parks before it
+/// produces its response (the counter and the log entry are written after the release).
+/// Also used by c05wire.rs (with a gate that is never armed) for the kind-5 handlers.
+pub fn customize(g2: Arc<Gate>) -> impl Fn(&[(String, X)], &mut Host, &Arc<pipe::Shared>) {
+    move |kv: &[(String, X)], host: &mut Host, shared: &Arc<pipe::Shared>| {
         let handlers = match kv.iter().find(|(n, _)| n == "handlers").and_then(|(_, v)| v.as_l()) {
             Some(h) => h,
             None => return,
@@ -225,12 +267,32 @@ fn run_scenario(x: &X) -> X {
                             gate.reached.notify_one();
                             gate.release.notified().await;
                         }
-                        pipe::handler_response(spec, sh, req)
+                        if spec.kind == 5 {
+                            // kind 5: "<body>?<query>" and then the transformed tuple (kind 3 with the query in the prefix)
+                            let mut s5 = (**spec).clone();
+                            s5.kind = 3;
+                            if let Some(q) = req.uri().query().filter(|q| !q.is_empty()) {
+                                s5.body.push(b'?');
+                                s5.body.extend_from_slice(q.as_bytes());
+                            }
+                            pipe::handler_response(&s5, sh, req)
+                        } else {
+                            pipe::handler_response(spec, sh, req)
+                        }
                     }),
                 );
             }
         }
+    }
+}
+
+fn run_scenario(x: &X) -> X {
+    let l = match x.as_l() {
+        Some(l) if l.len() == 2 => l,
+        _ => return X::bad(),
     };
+    let gate = Gate::new();
+    let customize = customize(Arc::clone(&gate));
     let built = match pipe::build_host(&l[0], Some(&customize)) {
         Some(b) => b,
         None => return X::bad(),
